@@ -1558,6 +1558,13 @@ class Quantity(metaclass=QuantityMeta):
 
     def __hash__(self) -> int:
         """hash(self)"""
+        cls = self.__class__
+        # noinspection PyProtectedMember
+        equiv = self.unit._equiv
+        if cls.ref_unit is not None and equiv is not None:
+            # quantities which are equal must have the same hash value,
+            # even if they have different units
+            return hash((cls, self.amount * equiv))
         return hash((self.amount, self.unit))
 
     def __abs__(self: Q) -> Q:
